@@ -1243,3 +1243,27 @@ def one_shot_locals(ctx, R, modules):
         else:
             out.append(ctx.ok(R, None, None, f"{mq}: no local one-shot iterator is used for repeated membership tests ({n_locals} one-shot local(s))", construct=k, nontrivial=False))
     return out
+
+
+def no_pairwise_zip_of_slices(ctx, R, modules):
+    """`zip(seq[0::2], seq[1::2])` pairs the elements of a sequence and silently drops the last one when the length is odd. Where an odd last element has a meaning
+    of its own (a key-only token of the simple filter syntax means `$exists`), pairing must keep it (index loop, zip_longest). One aggregated instance per module."""
+    out = []
+    for mq in modules:
+        hit = None
+        for fi in ctx.prog.functions_of_module(mq):
+            for c in body_nodes(fi):
+                if isinstance(c, ast.Call) and isinstance(c.func, ast.Name) and c.func.id == "zip" and len(c.args) == 2 and not any(k.arg == "strict" for k in c.keywords):
+                    a, b = c.args
+                    if isinstance(a, ast.Subscript) and isinstance(b, ast.Subscript) and isinstance(a.slice, ast.Slice) and isinstance(b.slice, ast.Slice) \
+                            and canon(a.value) == canon(b.value) and canon(a.slice.step or ast.Constant(value=1)) == canon(b.slice.step or ast.Constant(value=1)) \
+                            and canon(a.slice.step or ast.Constant(value=1)) != "1" and canon(a.slice.lower or ast.Constant(value=0)) != canon(b.slice.lower or ast.Constant(value=0)):
+                        hit = hit or (fi, c)
+        k = f"{mq}|pairwise-zip"
+        if hit:
+            fi, c = hit
+            out.append(ctx.viol(R, fi, c, f"`{canon(c)[:60]}` pairs the elements and drops the last one of an odd-length sequence: a trailing key-only token ('a 1 b' = a is 1 and b exists) "
+                                "is silently ignored, so the simple syntax selects a superset of what the equivalent mapping selects", construct=k))
+        else:
+            out.append(ctx.ok(R, None, None, f"{mq}: no pairing of a sequence by zip of two strided slices", construct=k, nontrivial=False))
+    return out
